@@ -837,6 +837,20 @@ func validateCompiledInputWith(route *ast.Route, body map[string]interface{}, ty
 	}
 	named, ok := route.InputType.(ast.NamedType)
 	if !ok {
+		// Item?, Item | Other, [Item], List[Item]: checked by the general
+		// checker, like the interpreter does. An absent body satisfies only an
+		// optional type; otherwise it is checked as an empty object.
+		var checked interface{}
+		if body != nil {
+			checked = body
+		} else if _, optional := route.InputType.(ast.OptionalType); !optional {
+			checked = map[string]interface{}{}
+		}
+		checker := interpreter.NewTypeChecker()
+		checker.SetTypeDefs(typeDefs)
+		if err := checker.CheckType(checked, route.InputType); err != nil {
+			return fmt.Errorf("input validation failed: %v", err)
+		}
 		return nil
 	}
 	typeDef, exists := typeDefs[named.Name]
